@@ -63,3 +63,11 @@ Proof. exact events5_nontrivial. Qed.
 Theorem c10_readb_batch_keeps_all : forall inbox,
   fst (Client.Loop.readb_take inbox) ++ snd (Client.Loop.readb_take inbox) = inbox /\ (length (fst (Client.Loop.readb_take inbox)) <= 9)%nat.
 Proof. exact Client.LoopProofs.readb_take_keeps_all. Qed.
+
+(** ---- the v5 event loop (Client/Loop5.v) *)
+From Rumqtt Require Client.Loop5 Client.Loop5Proofs.
+
+Theorem c10_readb_batch_keeps_all_v5 : forall inbox,
+  fst (Client.Loop5.readb_take5 inbox) ++ snd (Client.Loop5.readb_take5 inbox) = inbox /\
+  (length (fst (Client.Loop5.readb_take5 inbox)) <= 9)%nat.
+Proof. exact Client.Loop5Proofs.readb_take5_keeps_all. Qed.
